@@ -2,7 +2,7 @@
    fixes/C01-*.diff, all committed to /repo).  Proofs: proof/C01_Proofs_*.v. *)
 From QV.lib Require Import Prelude.
 From QV.model Require Import C01_Model.
-From QV.proof Require Import C01_Proofs_RT C01_Proofs_Norm C01_Proofs_Dispatch C01_Proofs_Store.
+From QV.proof Require Import C01_Proofs_RT C01_Proofs_Norm C01_Proofs_Dispatch C01_Proofs_Store C01_Proofs_Written.
 From Coq Require Import String.
 Local Open Scope string_scope.
 Local Open Scope list_scope.
@@ -58,12 +58,38 @@ Theorem C01_store_independent :
 Proof. exact store_independent. Qed.
 Print Assumptions C01_store_independent.
 
-(* limits of the statement (each reproduced on the real code, see known_findings.json):
-   an rng inside a container is written but cannot be loaded; an int beyond 2**53 in a sequence
-   that promotes to float changes its numeric value.  wf_obj excludes both. *)
-Example C01_rng_in_container_refuted :
-  load_file [] [] (save_file [] [] (VObj "m" "C" [("l", VList [VRng "PCG64" JNull; VInt 1])])) = RErr.
+(* every tree save() writes satisfies the hypothesis of C01_store_independent: member names
+   (arrays and sub-groups share one namespace) are unique in every group, at every depth *)
+Theorem C01_written_unique_names :
+  forall v, wf_obj v = true -> wf_node (save_file [] [] v) = true.
+Proof. exact wf_node_save_file. Qed.
+Print Assumptions C01_written_unique_names.
+
+(* hence, with no hypothesis on the tree: save, recover the tree from the flat file map of the
+   directory store or from the members of the zip archive, load -> the normal form, for both *)
+Theorem C01_roundtrip_both_stores :
+  forall v, wf_obj v = true ->
+    let t := save_file [] [] v in
+    unflatten (depth t) (unzip_store (zip_store (flatten t))) = Some t /\
+    unflatten (depth t) (flatten t) = Some t /\
+    load_file [] [] t = RVal (norm v).
+Proof. exact roundtrip_both_stores. Qed.
+Print Assumptions C01_roundtrip_both_stores.
+
+(* limits of the statement (each reproduced on the real code, see known_findings.json / the
+   evidence): an optimizer or scheduler inside a container is written but cannot be loaded (they
+   are not among the value kinds of the property); an int beyond 2**53 in a sequence that
+   promotes to float changes its numeric value.  wf_obj excludes both.  A random generator or a
+   dill-fallback value (Python / NumPy complex) inside a container is inside wf_obj since
+   fixes/C01-rng-in-container.diff and fixes/C01-dill-fallback-in-container.diff. *)
+Example C01_optimizer_in_container_refuted :
+  load_file [] [] (save_file [] [] (VObj "m" "C" [("l", VList [VBlob BOptimizer ["torch.optim.sgd.SGD"] [("class_name", JStr "SGD")] 5; VInt 1])])) = RErr.
 Proof. vm_compute. reflexivity. Qed.
+Example C01_rng_complex_in_container_roundtrip :
+  let v := VObj "m" "C" [("l", VList [VRng "PCG64" (JOpaque 7); VInt 1]);
+                         ("d", VDict [("z", VOther ["builtins.complex"] 3); ("s", VSet [VRng "SFC64" JNull; VStr "a"])])] in
+  wf_obj v = true /\ load_file [] [] (save_file [] [] v) = RVal (norm v).
+Proof. vm_compute. split; reflexivity. Qed.
 Example C01_numeric_seq_precision_refuted :
   load_file [] [] (save_file [] [] (VObj "m" "C" [("l", VList [VInt (2 ^ 53 + 1); VFloat 4602678819172646912])]))
   = RVal (VObj "m" "C" [("l", VList [VFloat (z2f (2 ^ 53)); VFloat 4602678819172646912])]).
